@@ -15,6 +15,7 @@ Inductive kx :=
 | KCmp (o : cmpop) (a b : kx) | KAnd (a b : kx) | KOr (a b : kx) | KNot (a : kx)
 | KIsNone (a : kx) | KIsNotNone (a : kx) | KIfE (c a b : kx)
 | KList (l : list kx) | KIndex (a : kx) (i : nat) | KSlice (a : kx) (i j : nat)
+| KDrop (n a : kx)                    (* a[n:] *)
 | KCall (f : string) (args : list kx).
 
 Inductive kt := KIf (c : kx) (t e : kt) | KRet (e : kx) | KEmit (e : kx) | KSkip.
@@ -83,6 +84,7 @@ Definition vdiv (a b : val) : val :=
   match a, b with
   | VQ x, VQ y => VQ (qdiv x y)
   | VQ x, VSurd c r => VSurd (qdiv x c) (/ r)
+  | VL x, VQ s => match qs_of x with Some xs => vq (map (fun e => qdiv e s) xs) | None => VErr end
   | _, _ => VErr
   end.
 Definition vneg (a : val) : val := match a with VQ x => VQ (- x) | _ => VErr end.
@@ -163,6 +165,7 @@ Fixpoint ev (w : world) (e : kx) : val :=
   | KList l => VL (map (ev w) l)
   | KIndex a i => match ev w a with VL l => nth i l VErr | _ => VErr end
   | KSlice a i j => match ev w a with VL l => VL (firstn (j - i) (skipn i l)) | _ => VErr end
+  | KDrop n a => match ev w n, ev w a with VN k, VL l => VL (skipn k l) | _, _ => VErr end
   | KCall f args => vcall f (map (ev w) args)
   end.
 
